@@ -273,6 +273,88 @@ def expand(task):
   return statespace.expand_paths(system(task['cfg']), task['paths'])
 
 
+def fresh_objects_shard(task):
+  """Two studies are two stores: metadata written to one object (in every way the API offers) must not show on another object of
+  the same kind that was created without metadata - in Python, and for studies created one after the other through the service."""
+  from vizier import pythia
+  from vizier import pyvizier as vz
+  from vizier.service import pyvizier as svz
+  from vizier._src.service import clients, study_pb2, vizier_client
+  vios, n = {}, 0
+
+  def V(kind, how, text):
+    sig = 'C10|metadata-shared-between-objects|%s' % kind
+    vios.setdefault(sig, {'sig': sig, 'desc': '%s, written by %s: %s' % (kind, how, text), 'case': {'part': 'F'}})
+  MAKE = {
+      'ProblemStatement': lambda: vz.ProblemStatement(),
+      'StudyConfig': lambda: svz.StudyConfig(),
+      'Trial': lambda: vz.Trial(),
+      'TrialSuggestion': lambda: vz.TrialSuggestion(),
+      'MetadataDelta.on_study': lambda: vz.MetadataDelta(),
+      'Metadata': lambda: vz.Metadata(),
+  }
+  WRITE = {
+      'item assignment': lambda md: md.__setitem__('k', 'v'),
+      'namespace view': lambda md: md.ns('a').ns('b').__setitem__('k', 'v'),
+      'abs_ns view': lambda md: md.abs_ns(vz.Namespace(('x',))).__setitem__('k', 'v'),
+      'update': lambda md: md.update({'k2': 'w'}),
+      'attach': lambda md: md.ns('t').attach(vz.Metadata({'k3': 'u'})),
+  }
+
+  def md_of(o):
+    return o if isinstance(o, vz.Metadata) else (o.on_study if hasattr(o, 'on_study') else o.metadata)
+
+  def entries(md):
+    return sorted((tuple(ns), k) for ns in md.namespaces() for k in md.abs_ns(ns))
+  for kind, mk in MAKE.items():
+    for how, wr in WRITE.items():
+      n += 1
+      before = mk()
+      a = mk()
+      wr(md_of(a))
+      after = mk()
+      for label, o in (('an object created earlier', before), ('an object created afterwards', after)):
+        if entries(md_of(o)):
+          V(kind, how, '%s shows %s' % (label, entries(md_of(o))))
+  # in-RAM studies: what the algorithm of study A writes must not appear in study B
+  for order in ('B-after', 'B-before'):
+    n += 1
+    def prob():
+      p = vz.ProblemStatement()
+      p.search_space.root.add_float_param('x', 0.0, 1.0)
+      p.metric_information.append(vz.MetricInformation('m', goal=vz.ObjectiveMetricGoal.MAXIMIZE))
+      return p
+    sb = pythia.InRamPolicySupporter(prob()) if order == 'B-before' else None
+    sa = pythia.InRamPolicySupporter(prob())
+    d = vz.MetadataDelta()
+    d.on_study.ns('algo')['state'] = 'of-study-A'
+    sa.SendMetadata(d) if hasattr(sa, 'SendMetadata') else None
+    sb = sb or pythia.InRamPolicySupporter(prob())
+    got = entries(sb.study_config.metadata) if hasattr(sb, 'study_config') else []
+    if got:
+      V('InRamPolicySupporter study', 'the algorithm of another study (%s)' % order, 'study B shows %s' % got)
+  # through the service: study C gets metadata at creation, study D is created from a brand-new configuration
+  for kind in task['backends']:
+    n += 1
+    b = svc.Backend(kind)
+
+    def cfg():
+      c = svz.StudyConfig(algorithm='SCRIPTED')
+      c.search_space.root.add_float_param('x', 0.0, 1.0)
+      c.metric_information.append(vz.MetricInformation('m', goal=vz.ObjectiveMetricGoal.MAXIMIZE))
+      return c
+    cc = cfg()
+    cc.metadata.ns('user')['owner-note'] = 'study C only'
+    b.servicer.CreateStudy(svc.vs.CreateStudyRequest(parent=svc.OWNER, study=study_pb2.Study(display_name='c', study_spec=cc.to_proto())))
+    cd = cfg()
+    st = b.servicer.CreateStudy(svc.vs.CreateStudyRequest(parent=svc.OWNER, study=study_pb2.Study(display_name='d', study_spec=cd.to_proto())))
+    got = [(kv.ns, kv.key) for kv in b.servicer.GetStudy(svc.vs.GetStudyRequest(name=st.name)).study_spec.metadata]
+    if got:
+      V('studies created through the service', 'metadata given to the study created before it', '[%s] GetStudy of the second study shows %s' % (kind, got))
+    b.close()
+  return {'n': n, 'violations': list(vios.values())}
+
+
 def run(ctx):
   # ---- part A
   if ctx.quick:
@@ -304,6 +386,9 @@ def run(ctx):
                       {'part': 'A', 'ns': pre[0], 'ns2': pre[1]})
   cov = {'codec_tuples': total, 'codec_distinct_encodings': len(enc), 'codec_collisions': collisions,
          'codec_bound': 'components of length <= %d over %s, <= %d components' % (maxlen, CH, maxcomp)}
+  for r in ctx.pmap('fresh_objects_shard', [{'backends': ['ram', 'sqlmem']}]):
+    total += r['n']
+    ctx.extend(r['violations'])
   # ---- part B
   if ctx.quick:
     plans = [({'backends': ['ram', 'sqlmem'], 'scopes': ['S', 1], 'ns': [0, 1, 3], 'vals': [0, 1, 3], 'max_entries': 3}, 2),
